@@ -196,10 +196,13 @@ def basis_function_one(degree, knot_vector, span, knot):
     :return: basis function, :math:`N_{i,p}`
     :rtype: float
     """
-    # Special case at boundaries
-    if (span == 0 and knot == knot_vector[0]) or \
-            (span == len(knot_vector) - degree - 2) and knot == knot_vector[len(knot_vector) - 1]:
-        return 1.0
+    # Special case at boundaries: the basis function with a non-empty support that starts with the first or ends with the
+    # last non-empty knot interval (the first / last basis function, unless an end knot is repeated more than degree + 1
+    # times, which leaves that one with an empty support)
+    if knot_vector[span] < knot_vector[span + degree + 1]:
+        if (not knot_vector[0] < knot_vector[span + degree] and knot == knot_vector[0]) or \
+                (not knot_vector[span + 1] < knot_vector[len(knot_vector) - 1] and knot == knot_vector[len(knot_vector) - 1]):
+            return 1.0
 
     # Knot is outside of span range
     if knot < knot_vector[span] or knot >= knot_vector[span + degree + 1]:
